@@ -49,5 +49,3 @@ func probeMain(args []string) int {
 	}
 	return 0
 }
-
-func handlesMain(args []string) int { return 0 }
